@@ -431,6 +431,194 @@ fn finish_planned(jobs: &[(String, bool)], plan: Vec<(u64, u64)>, classes: Vec<S
     r
 }
 
+
+/// outcome of a planned run of the jobs under valgrind/memcheck (`mmv together` as the child of valgrind)
+enum Mem {
+    Clean,
+    /// (kind, site, excerpt of the report)
+    Error(String, String, String),
+    /// valgrind missing, child died for another reason, or the wall limit was hit
+    Inconclusive(String),
+}
+
+/// the first frames of the first memcheck error that lie in the repository's code: `file:function`
+fn memcheck_site(log: &str) -> (String, String, String) {
+    let mut kind = String::new();
+    let mut site = String::new();
+    let mut excerpt = vec![];
+    for l in log.lines() {
+        let t = l.trim_start_matches(|c: char| c == '=' || c.is_ascii_digit()).trim();
+        if kind.is_empty() {
+            if t.starts_with("Invalid read") || t.starts_with("Invalid write") || t.starts_with("Invalid free") || t.starts_with("Mismatched free") || t.starts_with("Source and destination overlap") {
+                kind = t.split(" of size").next().unwrap_or(t).to_lowercase().replace(' ', "-");
+            } else {
+                continue;
+            }
+        }
+        if excerpt.len() < 40 {
+            excerpt.push(t.chars().take(200).collect::<String>());
+        }
+        if site.is_empty() && (t.starts_with("at ") || t.starts_with("by ")) {
+            // `by 0xADDR: function (file.rs:line)`
+            if let Some(par) = t.rfind('(') {
+                let loc = t[par + 1..].trim_end_matches(')');
+                let file = loc.split(':').next().unwrap_or("");
+                let func = t.split(": ").nth(1).unwrap_or("").split(" (").next().unwrap_or("");
+                let ours = ["lower.rs", "mirgen", "typing", "interner.rs", "parser", "bytecodegen", "wasmgen", "vm.rs", "compiler", "unification", "convert_", "program.rs", "resolve_", "plugin", "builtin_", "wasm", "heap.rs", "translate_staging", "intrinsics"];
+                if file.ends_with(".rs") && !file.starts_with("library/") && ours.iter().any(|o| file.contains(o)) && !func.is_empty() {
+                    let f: String = func.chars().filter(|c| !c.is_ascii_digit()).take(80).collect();
+                    site = format!("{file}:{f}");
+                }
+            }
+        }
+        if t.starts_with("Address ") && excerpt.len() > 6 && !site.is_empty() {
+            // keep a few lines of the `free'd by` stack, then stop
+            if excerpt.len() >= 30 {
+                break;
+            }
+        }
+    }
+    (kind, site, excerpt.join("\n"))
+}
+
+fn together_memcheck(jobs: &[(String, bool)], plan: Option<&[(u64, u64)]>, tag: u64, limit_s: f64) -> Mem {
+    let dir = "/verif/target/work/c19";
+    let _ = std::fs::create_dir_all(dir);
+    let path = format!("{dir}/{}-{tag:016x}.mc.json", std::process::id());
+    let logp = format!("{dir}/{}-{tag:016x}.mc.log", std::process::id());
+    let js: Vec<Value> = jobs.iter().map(|(s, sc)| json!({"text": s, "sched": sc})).collect();
+    let payload = match plan {
+        None => Value::Array(js),
+        Some(p) => json!({"jobs": js, "plan": p.iter().map(|(a, b)| json!([a, b])).collect::<Vec<_>>()}),
+    };
+    if std::fs::write(&path, serde_json::to_vec(&payload).unwrap()).is_err() {
+        return Mem::Inconclusive("cannot write the job file".into());
+    }
+    let Ok(exe) = std::env::current_exe() else { return Mem::Inconclusive("no current_exe".into()) };
+    let mut cmd = std::process::Command::new("valgrind");
+    cmd.args(["-q", "--error-exitcode=97", "--undef-value-errors=no", "--num-callers=24", "--error-limit=no", &format!("--log-file={logp}")]).arg(exe).args(["together", &path]);
+    let out = output_within(&mut cmd, limit_s);
+    let log = std::fs::read_to_string(&logp).unwrap_or_default();
+    let _ = std::fs::remove_file(&path);
+    let _ = std::fs::remove_file(&logp);
+    match out {
+        Err(e) => Mem::Inconclusive(e),
+        Ok(o) => {
+            let (kind, site, excerpt) = memcheck_site(&log);
+            if !kind.is_empty() {
+                Mem::Error(kind, if site.is_empty() { "unknown-site".into() } else { site }, excerpt)
+            } else if o.status.success() {
+                Mem::Clean
+            } else {
+                Mem::Inconclusive(format!("child-died:{:?}", o.status.code()))
+            }
+        }
+    }
+}
+
+/// the `memcheck` space: the planned interleaving once more, with valgrind's memcheck watching every
+/// heap access of the process (uninitialised-value tracking off)
+fn finish_memcheck(jobs: &[(String, bool)], plan: Vec<(u64, u64)>, mut classes: Vec<String>, cx: &Cx) -> CaseResult {
+    let key = jobs.iter().map(|(s, _)| s.as_str()).collect::<Vec<_>>().join("\u{1}");
+    let hash = hash64(key.as_bytes()) ^ hash64(format!("mc{plan:?}").as_bytes());
+    let direct = json!({"memcheck": true, "jobs": jobs.iter().map(|(s, sc)| json!({"text": s, "sched": sc})).collect::<Vec<_>>(), "plan": plan.iter().map(|(a, b)| json!([a, b])).collect::<Vec<_>>()});
+    if cx.dry {
+        let mut r = CaseResult::discard("dry");
+        r.render = Some(direct.clone());
+        r.direct = Some(direct);
+        return r;
+    }
+    let limit = 900.0;
+    let mut r = match together_memcheck(jobs, Some(&plan), hash, limit) {
+        Mem::Inconclusive(e) => {
+            let mut r = CaseResult::discard(format!("memcheck:{e}"));
+            r.direct = Some(direct);
+            return r;
+        }
+        Mem::Clean => CaseResult::held(hash),
+        Mem::Error(kind, site, excerpt) => {
+            // is the error a consequence of running together?  every job alone, also under memcheck
+            let mut alone_bad = None;
+            for (i, j) in jobs.iter().enumerate() {
+                if let Mem::Error(k2, s2, _) = together_memcheck(std::slice::from_ref(j), None, hash ^ (0x4000 + i as u64), limit) {
+                    alone_bad = Some((i, k2, s2));
+                    break;
+                }
+            }
+            match alone_bad {
+                Some((i, k2, s2)) => {
+                    // a memory error of one compilation on its own is C03's subject, not C19's
+                    let mut r = CaseResult::discard(format!("memory-error-also-alone:{k2}:{s2}"));
+                    r.count("memory_error_also_alone", 1);
+                    r.render = Some(json!({"job": i, "kind": k2, "site": s2}));
+                    r.direct = Some(direct);
+                    return r;
+                }
+                None => CaseResult::fail(hash, format!("c19:memory-error-only-when-concurrent:{kind}:{site}"), format!("memcheck reports `{kind}` at {site} when the jobs run under the planned interleaving; each job alone runs clean under memcheck.\n{excerpt}")),
+            }
+        }
+    };
+    classes.push(format!("jobs:{}", jobs.len()));
+    classes.push("memcheck".into());
+    r.classes = classes;
+    r.nontrivial = jobs.len() >= 2 || r.is_fail();
+    if cx.render || r.is_fail() {
+        r.render = Some(json!({"memcheck": true, "jobs": jobs.iter().map(|(s, _)| s.chars().take(300).collect::<String>()).collect::<Vec<_>>(), "plan": format!("{:?}", &plan[..plan.len().min(12)])}));
+    }
+    r.direct = Some(direct);
+    r
+}
+
+/// a source that gives the front end many symbol comparisons and look-ups (records with several
+/// fields, qualified paths) or many fresh identifiers to intern
+fn symbol_heavy_job(g: &mut Gen) -> String {
+    let kind = g.weighted(&[3, 3, 2]);
+    symbol_heavy_job_of(g, kind)
+}
+
+/// kind 0: records (field-name comparisons), 1: fresh identifiers (the interner grows), 2: qualified paths
+fn symbol_heavy_job_of(g: &mut Gen, kind: usize) -> String {
+    const NAMES: [&str; 12] = ["zeta", "alpha", "mid", "beta", "omega", "kappa", "gamma", "delta", "phase", "freq", "gain", "width"];
+    let tag = g.int(0, 999);
+    match kind {
+        0 => {
+            // records
+            let nrec = g.int(2, 30);
+            let nf = g.int(2, 8) as usize;
+            let p = g.perm(NAMES.len());
+            let fields: Vec<&str> = p.iter().take(nf).map(|i| NAMES[*i]).collect();
+            let mut s = String::from("fn dsp() {\n");
+            for i in 0..nrec {
+                s.push_str(&format!("  let r{i} = {{{}}}\n", fields.iter().enumerate().map(|(k, f)| format!("{f} = {}.0", i + k as i64)).collect::<Vec<_>>().join(", ")));
+            }
+            s.push_str(&format!("  r0.{} + r1.{}\n}}\n", fields[0], fields[nf - 1]));
+            s
+        }
+        1 => {
+            // many fresh identifiers
+            let n = g.int(5, 200);
+            let mut s = String::new();
+            for i in 0..n {
+                s.push_str(&format!("fn helper_{tag}_{i}_with_a_long_name(argument_{tag}_{i}) {{ argument_{tag}_{i} + {i}.0 }}\n"));
+            }
+            s.push_str(&format!("fn dsp() {{ helper_{tag}_0_with_a_long_name(1.0) }}\n"));
+            s
+        }
+        _ => {
+            // nested modules and qualified paths
+            let n = g.int(1, 12);
+            let mut s = String::new();
+            for i in 0..n {
+                s.push_str(&format!("mod outer_{tag}_{i} {{ pub mod inner_{i} {{ pub fn leaf_{i}(x) {{ x + {i}.0 }} }} }}\n"));
+            }
+            s.push_str("fn dsp() { ");
+            s.push_str(&(0..n).map(|i| format!("outer_{tag}_{i}::inner_{i}::leaf_{i}(1.0)")).collect::<Vec<_>>().join(" + "));
+            s.push_str(" }\n");
+            s
+        }
+    }
+}
+
 fn short(r: &Result<String, String>) -> String {
     match r {
         Ok(d) => format!("ok:{:016x}", hash64(d.as_bytes())),
@@ -447,20 +635,45 @@ impl Prop for C19 {
             Tier::Quick => vec![
                 Space { name: "sched", size: 1200, exhaustive: false, chunk: 4, case_timeout_s: 300.0, what: "K=2..4 compile+run jobs under a harness-owned interleaving: one thread runs at a time, switching at session-globals accesses where the case's plan says (fine alternation, log-uniform, coarse, burst and mixed plans)" },
                 Space { name: "stress", size: 640, exhaustive: false, chunk: 2, case_timeout_s: 300.0, what: "K=2..6 compile+run jobs (generated, shipped incl. macro/module programs, identical and near-identical sources, failing programs) started together on K threads, 2 rounds each" },
+                Space { name: "memcheck", size: 32, exhaustive: false, chunk: 1, case_timeout_s: 3000.0, what: "K=2..3 jobs (one of them symbol-heavy: records, fresh identifiers, qualified paths) under a fine or mixed harness-owned interleaving, the whole process watched by valgrind/memcheck: no invalid read, write or free that does not also occur when each job runs alone" },
             ],
             Tier::Thorough => vec![
                 Space { name: "sched", size: 20000, exhaustive: false, chunk: 10, case_timeout_s: 300.0, what: "K=2..4 jobs under a harness-owned interleaving" },
                 Space { name: "stress", size: 6000, exhaustive: false, chunk: 10, case_timeout_s: 300.0, what: "K=2..6 concurrent compile+run jobs, 2 rounds each" },
+                Space { name: "memcheck", size: 480, exhaustive: false, chunk: 1, case_timeout_s: 3000.0, what: "K=2..3 jobs under a fine or mixed harness-owned interleaving, watched by valgrind/memcheck" },
             ],
         }
     }
     fn run(&self, space: &str, _index: u64, g: &mut Gen, cx: &Cx) -> CaseResult {
-        let planned = space == "sched";
-        let k = if planned { g.int(2, 4) as usize } else { g.int(2, 6) as usize };
+        let memcheck = space == "memcheck";
+        let planned = space == "sched" || memcheck;
+        let k = if memcheck { g.int(2, 3) as usize } else if planned { g.int(2, 4) as usize } else { g.int(2, 6) as usize };
         let (cfg, _) = c01::pcfg(cx);
         let mut jobs: Vec<(String, bool)> = vec![];
         let mut classes = vec![];
-        for _ in 0..k {
+        // half of the memcheck cases pair a job that holds symbol strings while it works (records,
+        // qualified paths) with a job that makes the interner grow (fresh identifiers)
+        let paired = memcheck && g.coin();
+        if paired {
+            let holder = if g.bool(2, 3) { 0 } else { 2 };
+            let a = symbol_heavy_job_of(g, holder);
+            let b = symbol_heavy_job_of(g, 1);
+            if g.coin() {
+                jobs.push((a, false));
+                jobs.push((b, false));
+            } else {
+                jobs.push((b, false));
+                jobs.push((a, false));
+            }
+            classes.push("job:symbol-heavy".to_string());
+            classes.push("memcheck:holder-and-grower".to_string());
+        }
+        for jn in jobs.len()..k {
+            if memcheck && (jn == 0 || g.bool(1, 3)) {
+                jobs.push((symbol_heavy_job(g), false));
+                classes.push("job:symbol-heavy".to_string());
+                continue;
+            }
             match g.weighted(&[4, 4, 2, 1, 1, if jobs.is_empty() { 0 } else { 3 }, 2]) {
                 0 => {
                     let mut pg = PG::new(g, cfg.clone());
@@ -514,6 +727,21 @@ impl Prop for C19 {
                 }
             }
         }
+        if memcheck {
+            // fine alternation parks a thread at nearly every one of its scheduling points
+            let plan: Vec<(u64, u64)> = if g.bool(1, 3) {
+                // strict rotation over the threads, 1-2 scheduling points per turn
+                (0..jobs.len()).map(|t| (g.int(1, 2) as u64, ((t as u64) << 16) / jobs.len() as u64 + 1)).collect()
+            } else if g.bool(1, 2) {
+                let n = g.int(2, 6) as usize;
+                (0..n).map(|_| (g.int(1, 3) as u64, g.below(65536))).collect()
+            } else {
+                gen_plan(g).0
+            };
+            classes.sort();
+            classes.dedup();
+            return finish_memcheck(&jobs, plan, classes, cx);
+        }
         if planned {
             let (plan, name) = gen_plan(g);
             classes.push(name.to_string());
@@ -532,6 +760,9 @@ impl Prop for C19 {
         }
         if let Some(p) = input.get("plan").and_then(|p| p.as_array()) {
             let plan: Vec<(u64, u64)> = p.iter().map(|e| (e[0].as_u64().unwrap_or(1), e[1].as_u64().unwrap_or(0))).collect();
+            if input.get("memcheck").and_then(|v| v.as_bool()).unwrap_or(false) {
+                return Some(finish_memcheck(&jobs, plan, vec![], cx));
+            }
             return Some(finish_with(&jobs, Some(plan), vec![], cx));
         }
         Some(finish(&jobs, vec![], cx))
@@ -547,6 +778,9 @@ impl Prop for C19 {
                     if let Some(p) = input.get("plan") {
                         o["plan"] = p.clone();
                     }
+                    if let Some(m) = input.get("memcheck") {
+                        o["memcheck"] = m.clone();
+                    }
                     out.push(o);
                 }
             }
@@ -554,7 +788,11 @@ impl Prop for C19 {
                 // shorter plans (the plan repeats cyclically, so halving keeps a schedule)
                 if p.len() > 1 {
                     for half in [&p[..p.len() / 2], &p[p.len() / 2..]] {
-                        out.push(json!({"jobs": js, "plan": half}));
+                        let mut o = json!({"jobs": js, "plan": half});
+                        if let Some(m) = input.get("memcheck") {
+                            o["memcheck"] = m.clone();
+                        }
+                        out.push(o);
                     }
                 }
             }
@@ -562,12 +800,13 @@ impl Prop for C19 {
         out
     }
     fn rule(&self) -> String {
-        "Cases are sets of K=2..6 jobs; a job compiles a source for both backends and runs 8 samples on both runtimes (artefacts: bytecode listing, WASM bytes, state layouts, I/O channels, outputs; diagnostics or a panic signature for failing programs). Sources: generated programs, shipped sources (incl. programs with macros, which set the process environment variable, and modules), exact duplicates, near-duplicates differing in one literal, and broken texts. Sources also include programs over user sum types (half of them with a match that misses several constructors, so that the diagnostic lists names) and a program that mentions the identifiers of another job in a shuffled order. The compared artefacts include the diagnostic messages of refused programs. Each job is first run alone in its own fresh child process; then all jobs are started together on K OS threads behind a barrier in a fresh child process that has compiled nothing before (2 such processes per case). Oracle: every job's artefacts equal its solo artefacts; no panic that does not also occur alone. A difference is reported when it is seen in at least three concurrent runs (up to 20 further runs are made) and the solo artefacts are stable; otherwise it is counted as flaky-inconclusive. Non-trivial = at least two jobs that compile. Space `sched`: the same jobs (K=2..4) and the same oracle, but the interleaving belongs to the case: the repository hook `interner::verif_hooks` calls the harness in front of every session-globals access (about 14 000 such points per compiled job), a cooperative scheduler lets exactly one job thread run at a time and hands the turn over where the case's plan says; a plan is a list of 4..50 (segment length, thread pick) pairs drawn from the tape in five styles (fine alternation of 1-4 points, log-uniform up to 8 000, coarse up to 260 000, a burst of fine alternation after a quiet start of random length, mixed) and repeats cyclically. A difference under a plan is re-run with the same plan (up to 4 more times) and reported when seen at least twice; non-trivial there additionally needs at least 10 turn switches.".into()
+        "Cases are sets of K=2..6 jobs; a job compiles a source for both backends and runs 8 samples on both runtimes (artefacts: bytecode listing, WASM bytes, state layouts, I/O channels, outputs; diagnostics or a panic signature for failing programs). Sources: generated programs, shipped sources (incl. programs with macros, which set the process environment variable, and modules), exact duplicates, near-duplicates differing in one literal, and broken texts. Sources also include programs over user sum types (half of them with a match that misses several constructors, so that the diagnostic lists names) and a program that mentions the identifiers of another job in a shuffled order. The compared artefacts include the diagnostic messages of refused programs. Each job is first run alone in its own fresh child process; then all jobs are started together on K OS threads behind a barrier in a fresh child process that has compiled nothing before (2 such processes per case). Oracle: every job's artefacts equal its solo artefacts; no panic that does not also occur alone. A difference is reported when it is seen in at least three concurrent runs (up to 20 further runs are made) and the solo artefacts are stable; otherwise it is counted as flaky-inconclusive. Non-trivial = at least two jobs that compile. Space `sched`: the same jobs (K=2..4) and the same oracle, but the interleaving belongs to the case: the repository hook `interner::verif_hooks` calls the harness in front of every session-globals access (about 14 000 such points per compiled job), a cooperative scheduler lets exactly one job thread run at a time and hands the turn over where the case's plan says; a plan is a list of 4..50 (segment length, thread pick) pairs drawn from the tape in five styles (fine alternation of 1-4 points, log-uniform up to 8 000, coarse up to 260 000, a burst of fine alternation after a quiet start of random length, mixed) and repeats cyclically. A difference under a plan is re-run with the same plan (up to 4 more times) and reported when seen at least twice; non-trivial there additionally needs at least 10 turn switches. Space `memcheck`: K=2..3 jobs, the first of them symbol-heavy (records with 2-8 fields, up to 200 fresh long identifiers, or nested modules with qualified paths), under a plan of fine alternation (1-3 scheduling points per turn; two thirds of the cases) or one of the five styles above; the child process that runs the jobs together is started under valgrind/memcheck (uninitialised-value tracking off, all other heap checking on). Oracle: memcheck reports no invalid read, invalid write, invalid or mismatched free; when it does, every job is run alone under memcheck as well, and only an error that none of the jobs shows alone is a failure (`c19:memory-error-only-when-concurrent:<kind>:<site>`, site = first frame in the repository's code); an error that also occurs alone is discarded and counted (it is C03's subject).".into()
     }
     fn assumptions(&self) -> Vec<String> {
         vec![
             "space `stress`: interleavings are whatever the OS scheduler produces on this machine, so a rare interleaving can be missed and a difference seen fewer than three times in 22 concurrent runs is not reported".into(),
             "space `sched`: the harness owns the interleaving only at the granularity of session-globals accesses (hook H3); code between two such accesses runs atomically, so races on other shared state are exercised only insofar as a session-globals access lies inside their window; a job thread's own behaviour is not perfectly deterministic (the number of scheduling points of one job varies by a fraction of a percent between processes), so a plan fixes the interleaving approximately".into(),
+            "space `memcheck`: valgrind 3.19 serialises the process's threads, which does not matter here because the cooperative scheduler already lets exactly one job thread run at a time; a scheduling turn is taken by force after 3 s without progress, which under memcheck's slowdown can happen inside a long compilation step and then only changes which interleaving is explored".into(),
             "a deadlock or livelock is recognised by a wall-clock limit derived from the jobs' own solo run time (40x, at least 45 s) and has to be seen twice; a machine so overloaded that a healthy run exceeds that limit twice would be misread".into(),
         ]
     }
@@ -575,6 +814,6 @@ impl Prop for C19 {
         8
     }
     fn required_classes(&self, _tier: Tier) -> Vec<&'static str> {
-        vec!["job:generated", "job:shipped", "job:macro", "job:duplicate", "job:broken", "job:ident-shuffle", "some-job-compiles", "identical-sources", "plan:fine", "plan:log", "plan:coarse", "plan:burst", "plan:mixed", "switches:>=1000"]
+        vec!["job:generated", "job:shipped", "job:macro", "job:duplicate", "job:broken", "job:ident-shuffle", "some-job-compiles", "identical-sources", "plan:fine", "plan:log", "plan:coarse", "plan:burst", "plan:mixed", "switches:>=1000", "memcheck", "job:symbol-heavy"]
     }
 }
